@@ -1553,7 +1553,8 @@ func (self *Fork) serializeState(ctx context.Context) *ForkInfo {
 
 func (self *Fork) getStages() []*StagePerfInfo {
 	stages := make([]*StagePerfInfo, 0, len(self.node.subnodes)+1)
-	for _, node := range self.node.subnodes {
+	// Sorted, so that the list written to the _perf file is repeatable.
+	for _, node := range self.node.sortedSubnodes() {
 		for _, subfork := range node.matchForks(self.forkId) {
 			stages = append(stages, subfork.getStages()...)
 		}
